@@ -92,7 +92,7 @@ func ruleGuarded(r *Run, p *Program, rule string) {
 		}
 		r.ok(rule, e.Key, p.Pos(f.Pos()), fmt.Sprintf("%d guarded accesses / shared-file calls reachable from this entry hold the required lock", okCount), true)
 	}
-	r.universe(rule, entries, 15)
+	r.universe(rule, entries, 13)
 	r.universe(rule+":accesses", nAcc, 150)
 	r.CallSites += nAcc
 }
@@ -141,7 +141,7 @@ func ruleOneSection(r *Run, p *Program, rule string) {
 			r.ok(rule, k, p.Pos(f.Pos()), "DB.mu is acquired once and never re-acquired after a release within the operation", true)
 		}
 	}
-	r.universe(rule, n, 8)
+	r.universe(rule, n, 6)
 }
 
 // ruleBalanced: every API entry returns with exactly the locks it was entered with.
@@ -172,7 +172,7 @@ func ruleBalanced(r *Run, p *Program, rule string) {
 			r.ok(rule, e.Key, p.Pos(f.Pos()), "every return leaves the lockset as on entry", true)
 		}
 	}
-	r.universe(rule, n, 15)
+	r.universe(rule, n, 13)
 }
 
 // ruleLockOrder: acquisition order graph is acyclic, no re-entrant acquisition, no blocking wait while holding a lock.
@@ -196,7 +196,7 @@ func ruleLockOrder(r *Run, p *Program, rule string) {
 				nAcq++
 				for st := range w.States[nd] {
 					for h := range lockSetParse(st) {
-						if h == "OPEN" {
+						if h == "OPEN" || strings.HasPrefix(h, "acq@") {
 							continue
 						}
 						hl := strings.TrimSuffix(strings.TrimSuffix(h, ":W"), ":R")
@@ -232,7 +232,7 @@ func ruleLockOrder(r *Run, p *Program, rule string) {
 			}
 		}
 	}
-	r.universe(rule, nAcq, 15)
+	r.universe(rule, nAcq, 10)
 	// cycle detection
 	adj := map[string][]string{}
 	var es []string
@@ -436,4 +436,70 @@ func ruleFSCalls(r *Run, p *Program, rule string) {
 		}
 	}
 	r.universe(rule, n, 8)
+}
+
+// ruleC05PickSealAtomic: the segments to compact are chosen and sealed inside one exclusive section of DB.mu, so that no
+// record (in particular no delete record) can be appended to a picked segment after the decision was made.
+func ruleC05PickSealAtomic(r *Run, p *Program, rule string) {
+	f := p.Fn("(*pogreb.DB).Compact")
+	if !r.anchor(rule, "(*pogreb.DB).Compact", f != nil) {
+		return
+	}
+	r.fn(funcKey(f))
+	sl := sealers(p)
+	w, _ := lockWalk(p, f, "")
+	acqOf := func(nd Node) map[string]bool {
+		out := map[string]bool{}
+		first := true
+		for st := range w.States[nd] {
+			cur := map[string]bool{}
+			for k := range lockSetParse(st) {
+				if strings.HasPrefix(k, "acq@") {
+					cur[k] = true
+				}
+			}
+			if first {
+				out, first = cur, false
+				continue
+			}
+			for k := range out {
+				if !cur[k] {
+					delete(out, k)
+				}
+			}
+		}
+		return out
+	}
+	var pick *Node
+	var seals []Node
+	for nd := range w.Reached {
+		nd := nd
+		k := calleeOfNode(nil, nd)
+		if k == "(*pogreb.DB).pickForCompaction" {
+			pick = &nd
+		}
+		if sl[k] {
+			seals = append(seals, nd)
+		}
+		if st, ok := nd.In.(*ssa.Store); ok && fieldName(st.Addr) == "pogreb.segmentMeta.Full" {
+			seals = append(seals, nd)
+		}
+	}
+	if !r.anchor(rule, "pickForCompaction call and segment sealing reachable from Compact", pick != nil && len(seals) > 0) {
+		return
+	}
+	held := mustHold(w, *pick)
+	r.check(held["mu:W"], rule, "(*pogreb.DB).Compact:pick-exclusive", p.Pos(instrPos(pick.In)), "the segments are picked with DB.mu held exclusively", "the segments to compact are picked without DB.mu held exclusively: writers append to the candidates while they are being judged")
+	pa := acqOf(*pick)
+	same := false
+	for _, s := range seals {
+		for k := range acqOf(s) {
+			if pa[k] {
+				same = true
+			}
+		}
+	}
+	r.check(same, rule, "(*pogreb.DB).Compact:pick-and-seal-one-section", p.Pos(instrPos(pick.In)),
+		"the picked segments are sealed inside the same critical section of DB.mu in which they were picked",
+		"the segments picked for compaction are sealed only later, in another critical section: a Delete acknowledged in between appends its delete record to a picked, still writable segment that was judged to hold none; compaction then drops the record without compacting the older segments and the deleted key comes back after a crash")
 }
